@@ -23,6 +23,17 @@ type vWCReq struct {
 	name         string
 	req          string
 	l22, l3, off bool
+	user         string // not a write-control request but something the user does to the data directory: "rm-lowest", "rm-highest"
+}
+
+// vWCUserOps: what a user legitimately does to the output tree between requests: removing (or moving away)
+// the run directory of a finished run -- the lowest- or the highest-numbered one that no writer has open
+// (no-op if there is none). The numbering then has a gap (or is shorter than the number of runs so far).
+func vWCUserOps() []vWCReq {
+	return []vWCReq{
+		{name: "RMDIR-lowest-finished", user: "rm-lowest"},
+		{name: "RMDIR-highest-finished", user: "rm-highest"},
+	}
 }
 
 func vWCRequests() []vWCReq {
@@ -39,15 +50,15 @@ func vWCRequests() []vWCReq {
 		if off {
 			n += "OFF "
 		}
-		out = append(out, vWCReq{strings.TrimSpace(n) + "}", "Start", l22, l3, off})
+		out = append(out, vWCReq{strings.TrimSpace(n) + "}", "Start", l22, l3, off, ""})
 	}
-	out = append(out, vWCReq{"START{}", "START", false, false, false})
-	out = append(out, vWCReq{"STOP", "Stop", false, false, false})
-	out = append(out, vWCReq{"PAUSE", "pause", false, false, false})
-	out = append(out, vWCReq{"UNPAUSE", "UNPAUSE", false, false, false})
-	out = append(out, vWCReq{"UNPAUSE lbl", "UNPAUSE lbl", false, false, false})
-	out = append(out, vWCReq{"UNPAUSElbl", "UNPAUSElbl", false, false, false})
-	out = append(out, vWCReq{"FOO", "FOO", false, false, false})
+	out = append(out, vWCReq{"START{}", "START", false, false, false, ""})
+	out = append(out, vWCReq{"STOP", "Stop", false, false, false, ""})
+	out = append(out, vWCReq{"PAUSE", "pause", false, false, false, ""})
+	out = append(out, vWCReq{"UNPAUSE", "UNPAUSE", false, false, false, ""})
+	out = append(out, vWCReq{"UNPAUSE lbl", "UNPAUSE lbl", false, false, false, ""})
+	out = append(out, vWCReq{"UNPAUSElbl", "UNPAUSElbl", false, false, false, ""})
+	out = append(out, vWCReq{"FOO", "FOO", false, false, false, ""})
 	return out
 }
 
@@ -57,6 +68,13 @@ type vWCStep struct {
 	tag      int64
 	reported WritingState // state reported after the preceding request
 	pattern  string       // file pattern in force (from the reported state)
+	run      int          // index in vWCModel.runs of the run that pattern belongs to, -1 if none
+}
+
+// vWCRunDir: one successful START.
+type vWCRunDir struct {
+	pattern, dir string
+	removed      bool // the user removed the directory after the run had finished: its files are no longer expected
 }
 
 type vWCModel struct {
@@ -68,8 +86,9 @@ type vWCModel struct {
 	ref      vWCRef
 	steps    []vWCStep
 	nextTag  int64
-	patterns []string
+	runs     []vWCRunDir
 	starts   int
+	removals int
 }
 
 // projMask: bit ch set = channel ch has projectors (and so is eligible for OFF files)
@@ -103,6 +122,17 @@ func (m *vWCModel) close() {
 	os.RemoveAll(m.base)
 }
 
+// vRunDirNames: the existing run directories as sorted "day/number" names.
+func vRunDirNames(base string) []string {
+	var out []string
+	for d := range vListRunDirs(base) {
+		rel, _ := filepath.Rel(base, d)
+		out = append(out, rel)
+	}
+	sort.Strings(out)
+	return out
+}
+
 func vListRunDirs(base string) map[string]bool {
 	out := map[string]bool{}
 	days, _ := os.ReadDir(base)
@@ -134,7 +164,13 @@ func (m *vWCModel) publishTagged(x *vexp.X) (string, string) {
 		}
 		m.src.drain(ch)
 	}
-	m.steps = append(m.steps, vWCStep{tag: tag, reported: *rep, pattern: rep.FilenamePattern})
+	run := -1
+	for i := range m.runs {
+		if rep.Active && !m.runs[i].removed && m.runs[i].pattern == rep.FilenamePattern {
+			run = i
+		}
+	}
+	m.steps = append(m.steps, vWCStep{tag: tag, reported: *rep, pattern: rep.FilenamePattern, run: run})
 	x.Logf("   record tag %d published under reported state active=%v paused=%v ljh22=%v ljh3=%v off=%v", tag, rep.Active, rep.Paused, rep.WriteLJH22, rep.WriteLJH3, rep.WriteOFF)
 	return "", ""
 }
@@ -146,9 +182,60 @@ func vWSKey(w *WritingState) string {
 	return fmt.Sprintf("active/paused=%v/%v%v%v", w.Paused, w.WriteLJH22, w.WriteLJH3, w.WriteOFF)
 }
 
+// userRemove removes the lowest- or highest-numbered run directory that no writer has open.
+func (m *vWCModel) userRemove(x *vexp.X, rq vWCReq) (string, string) {
+	before := m.ds.ComputeWritingState()
+	inUse := map[string]bool{}
+	held := m.ref.active || before.Active || m.ds.writingState.experimentStateFile != nil
+	for _, dsp := range m.ds.processors {
+		held = held || dsp.HasLJH22() || dsp.HasLJH3() || dsp.HasOFF()
+	}
+	if held {
+		if before.FilenamePattern != "" {
+			inUse[filepath.Dir(before.FilenamePattern)] = true
+		}
+		if len(m.runs) > 0 {
+			inUse[m.runs[len(m.runs)-1].dir] = true
+		}
+	}
+	var cand []string
+	for d := range vListRunDirs(m.base) {
+		if !inUse[d] {
+			cand = append(cand, d)
+		}
+	}
+	sort.Strings(cand)
+	if len(cand) == 0 {
+		x.Logf("%s -> no finished run directory: nothing done", rq.name)
+	} else {
+		victim := cand[0]
+		if rq.user == "rm-highest" {
+			victim = cand[len(cand)-1]
+		}
+		if err := os.RemoveAll(victim); err != nil {
+			panic(err)
+		}
+		m.removals++
+		for i := range m.runs {
+			if m.runs[i].dir == victim {
+				m.runs[i].removed = true
+			}
+		}
+		x.Logf("%s -> removed %s ; run directories now %v", rq.name, strings.TrimPrefix(victim, m.base), vRunDirNames(m.base))
+	}
+	after := m.ds.ComputeWritingState()
+	if vWSKey(before) != vWSKey(after) || before.FilenamePattern != after.FilenamePattern {
+		return fmt.Sprintf("%s changed the reported state from %s to %s", rq.name, vWSKey(before), vWSKey(after)), "reported-state-wrong"
+	}
+	return m.publishTagged(x)
+}
+
 // request issues one write-control request and checks the reported state against the reference.
 func (m *vWCModel) request(x *vexp.X, rq vWCReq) (string, string) {
 	x.Steps++
+	if rq.user != "" {
+		return m.userRemove(x, rq)
+	}
 	before := m.ds.ComputeWritingState()
 	dirsBefore := vListRunDirs(m.base)
 	err := m.ds.WriteControl(&WriteControlConfig{Request: rq.req, Path: m.base, WriteLJH22: rq.l22, WriteLJH3: rq.l3, WriteOFF: rq.off})
@@ -171,7 +258,7 @@ func (m *vWCModel) request(x *vexp.X, rq vWCReq) (string, string) {
 			if st, e := os.Stat(dir); e != nil || !st.IsDir() {
 				return fmt.Sprintf("successful %s reports pattern %q but that directory does not exist", rq.name, after.FilenamePattern), "start-no-directory"
 			}
-			m.patterns = append(m.patterns, after.FilenamePattern)
+			m.runs = append(m.runs, vWCRunDir{pattern: after.FilenamePattern, dir: dir})
 		case strings.HasPrefix(up, "STOP"):
 			m.ref.active, m.ref.paused = false, false
 		case strings.HasPrefix(up, "PAUSE"):
@@ -215,6 +302,11 @@ func (m *vWCModel) canon() string {
 			s += fmt.Sprintf("h%v", dsp.OFF.HeaderWritten())
 		}
 	}
+	// the output tree: which run directories exist, and which one is being written into
+	s += fmt.Sprintf("|dirs=%v", vRunDirNames(m.base))
+	if w.FilenamePattern != "" {
+		s += "|into=" + filepath.Base(filepath.Dir(w.FilenamePattern))
+	}
 	return s
 }
 
@@ -250,7 +342,11 @@ func (m *vWCModel) finish(x *vexp.X) (string, string) {
 		ch           int
 	}
 	landed := map[key]map[int64]int{}
-	for _, pat := range m.patterns {
+	for _, run := range m.runs {
+		if run.removed {
+			continue // the user took these files away
+		}
+		pat := run.pattern
 		for ch, dsp := range m.ds.processors {
 			for _, typ := range []string{"ljh", "ljh3", "off"} {
 				fn := fmt.Sprintf(pat, dsp.Name, typ)
@@ -293,6 +389,10 @@ func (m *vWCModel) finish(x *vexp.X) (string, string) {
 			for _, typ := range []string{"ljh", "ljh3", "off"} {
 				enabled := map[string]bool{"ljh": st.reported.WriteLJH22, "ljh3": st.reported.WriteLJH3, "off": st.reported.WriteOFF && dsp.HasProjectors()}[typ]
 				want := st.reported.Active && !st.reported.Paused && enabled
+				gone := st.run >= 0 && m.runs[st.run].removed
+				if gone {
+					want = false // stored in a run whose directory the user removed afterwards
+				}
 				got := 0
 				for k, tags := range landed {
 					if k.ch == ch && k.typ == typ {
@@ -306,6 +406,9 @@ func (m *vWCModel) finish(x *vexp.X) (string, string) {
 				}
 				if want && got != 1 {
 					return fmt.Sprintf("record tag %d of channel %d: reported state %s says it is stored in the %s file, but it appears %d times", st.tag, ch, vWSKey(&st.reported), typ, got), "record-missing-although-state-says-writing"
+				}
+				if gone && got != 0 {
+					return fmt.Sprintf("record tag %d of channel %d was stored in run %q, whose directory was removed after that run had finished, but it appears %d times in the %s files now there", st.tag, ch, st.pattern, got, typ), "record-of-removed-run-reappears"
 				}
 				if !want && got != 0 {
 					return fmt.Sprintf("record tag %d of channel %d: reported state %s says it is not stored as %s, but it appears %d times", st.tag, ch, vWSKey(&st.reported), typ, got), "record-stored-although-state-says-not-writing"
@@ -321,7 +424,9 @@ var vWCSeq int
 var vWCMaskNames = []string{"proj-on-ch0", "proj-on-ch1", "proj-on-both", "proj-on-none"}
 var vWCMasks = []int{1, 2, 3, 0}
 
-func vWCRun(x *vexp.X, reqs []vWCReq, hist []int, projMask int) (string, vexp.Result) {
+// vWCRun: maxDirs > 0 = histories after which more than maxDirs run directories exist are checked but not
+// extended (their canonical state is ""), which makes the BFS state space finite.
+func vWCRun(x *vexp.X, reqs []vWCReq, hist []int, projMask, maxDirs int) (string, vexp.Result) {
 	vWCSeq++
 	base := filepath.Join(os.Getenv("TMPDIR"), fmt.Sprintf("wc%d", vWCSeq))
 	os.MkdirAll(base, 0755)
@@ -335,29 +440,48 @@ func vWCRun(x *vexp.X, reqs []vWCReq, hist []int, projMask int) (string, vexp.Re
 		}
 	}
 	canon := m.canon()
+	outcome := canon
+	if maxDirs > 0 && len(vListRunDirs(base)) > maxDirs {
+		canon = ""
+	}
 	if v, c := m.finish(x); v != "" {
 		return "", vexp.Result{Violation: fmt.Sprintf("history %v: %s", names, v), Class: c}
 	}
-	return canon, vexp.Result{Nontrivial: m.starts > 0, Outcome: canon}
+	return canon, vexp.Result{Nontrivial: m.starts > 0, Outcome: outcome}
 }
 
 func TestVerifC06(t *testing.T) {
 	r := vexp.NewRunner("C06")
 	defer r.Finish()
 	reqs := vWCRequests()
-	depth := 4
+	all := append(append([]vWCReq{}, reqs...), vWCUserOps()...)
+	// the reduced alphabet of the directory-numbering family: one START, STOP and the user's removals
+	var dirOps []vWCReq
+	for _, q := range all {
+		if q.name == "START{LJH22}" || q.name == "STOP" || q.user != "" || (r.Thorough() && q.name == "START{LJH3 OFF}") {
+			dirOps = append(dirOps, q)
+		}
+	}
+	depth, maxDirs, dirDepth := 4, 2, 6
 	if r.Thorough() {
-		depth = 5
+		depth, maxDirs, dirDepth = 5, 3, 7
 	}
-	names := []string{}
-	for _, q := range reqs {
-		names = append(names, q.name)
+	sorted := func(qs []vWCReq) string {
+		names := []string{}
+		for _, q := range qs {
+			names = append(names, q.name)
+		}
+		sort.Strings(names)
+		return strings.Join(names, ", ")
 	}
-	sort.Strings(names)
-	r.SetBound(fmt.Sprintf("BFS to closure over %d requests (%s), one tagged record per channel after every request, for each projector assignment of two channels (%s); plus un-merged DFS of all request sequences to depth %d (quick: depth-1 for the two uniform assignments)", len(reqs), strings.Join(names, ", "), strings.Join(vWCMaskNames, ", "), depth))
+	r.SetBound(fmt.Sprintf("BFS to closure over %d requests (%s) and %d user actions on the output tree (%s: the lowest-/highest-numbered run directory no writer has open is removed), "+
+		"histories not extended once more than %d run directories exist at the same time, one tagged record per channel after every request, "+
+		"for each projector assignment of two channels (%s); plus un-merged DFS of all sequences of the %d requests to depth %d (quick: depth-1 for the two uniform assignments); "+
+		"plus un-merged DFS of all sequences over {%s} to depth %d (proj-on-ch0)",
+		len(reqs), sorted(reqs), len(vWCUserOps()), sorted(vWCUserOps()), maxDirs, strings.Join(vWCMaskNames, ", "), len(reqs), depth, sorted(dirOps), dirDepth))
 	for mi, mask := range vWCMasks {
 		mask := mask
-		r.BFS("bfs/"+vWCMaskNames[mi], vexp.BFSSpec{NumOps: len(reqs), Run: func(x *vexp.X, hist []int) (string, vexp.Result) { return vWCRun(x, reqs, hist, mask) }})
+		r.BFS("bfs/"+vWCMaskNames[mi], vexp.BFSSpec{NumOps: len(all), Run: func(x *vexp.X, hist []int) (string, vexp.Result) { return vWCRun(x, all, hist, mask, maxDirs) }})
 	}
 	for mi, mask := range vWCMasks {
 		mask := mask
@@ -372,7 +496,21 @@ func TestVerifC06(t *testing.T) {
 				for len(hist) < d {
 					hist = append(hist, x.Choose(len(reqs)))
 				}
-				_, res := vWCRun(x, reqs, hist, mask)
+				_, res := vWCRun(x, reqs, hist, mask, 0)
+				return res
+			})
+		}
+	}
+	// the directory numbering: long enough for two finished runs, a removal and another START
+	for first := range dirOps {
+		for second := range dirOps {
+			first, second := first, second
+			r.DFS(fmt.Sprintf("dfs-dirs/%s/first=%s,%s", vWCMaskNames[0], dirOps[first].name, dirOps[second].name), -1, func(x *vexp.X) vexp.Result {
+				hist := []int{first, second}
+				for len(hist) < dirDepth {
+					hist = append(hist, x.Choose(len(dirOps)))
+				}
+				_, res := vWCRun(x, dirOps, hist, vWCMasks[0], 0)
 				return res
 			})
 		}
